@@ -534,3 +534,9 @@ pub fn mask_handles(s: &str) -> String {
     out.push_str(rest);
     out
 }
+
+/// every character with the Unicode White_Space property
+pub const UNICODE_WHITE_SPACE: [char; 25] = [
+    '\u{9}', '\u{a}', '\u{b}', '\u{c}', '\u{d}', ' ', '\u{85}', '\u{a0}', '\u{1680}', '\u{2000}', '\u{2001}', '\u{2002}', '\u{2003}', '\u{2004}', '\u{2005}', '\u{2006}', '\u{2007}', '\u{2008}', '\u{2009}',
+    '\u{200a}', '\u{2028}', '\u{2029}', '\u{202f}', '\u{205f}', '\u{3000}',
+];
